@@ -1,8 +1,22 @@
 import GB.Base.Proto
+import GB.C18.Model
 namespace GB.C18
 open GB GB.Proto
 
-/-- stub: replaced when the C18 slice is built -/
-def handle : Handler := fun _ _ => "BAD c18 unimplemented"
+def parseLocks (s : String) : List String := if s == "-" then [] else s.splitOn ","
+
+/-- `pair <field> <fnA> <wA> <locksA> <freshA> <fnB> <wB> <locksB> <freshB> => present|absent`
+    One conflicting-candidate pair of the regenerated access table; judged with the same
+    `conflict` / `protectedPair` definitions the theorem `C18_lockset_partial` is about. -/
+def handle : Handler
+  | ["pair", f, fa, wa, la, fra, fb, wb, lb, frb], [out] =>
+    let a : Acc := ⟨f, fa, wa == "1", parseLocks la, fra == "1"⟩
+    let b : Acc := ⟨f, fb, wb == "1", parseLocks lb, frb == "1"⟩
+    if out == "absent" then "OK b=absent"   -- replayed pair no longer exists in the current table
+    else if !conflict a b then "OK b=noconflict"
+    else if commonLock a b then "OK nt b=mutex"
+    else if confined a b then "OK nt b=confined"
+    else s!"VIOL unprotected field={f} a={fa} b={fb}"
+  | _, _ => "BAD c18 line"
 
 end GB.C18
